@@ -212,6 +212,10 @@ def mem_key(events, i, backend, m_steps=None):
     return None
 
 
+SUPPORTED = {"abor", "appe", "cdup", "cwd", "dele", "epsv", "list", "mkd", "mlsd", "mlst", "pass", "pasv", "pbsz", "prot", "pwd",
+             "quit", "rest", "retr", "rmd", "rnfr", "rnto", "stor", "syst", "type", "user"}
+
+
 def oracles(ctx, table, events, obs, backend="memory"):
     """the property text, evaluated on the implementation alone"""
     history = [[v, a, (p.decode("latin-1") if p is not None else None)] for v, a, p in events]
@@ -242,7 +246,12 @@ def oracles(ctx, table, events, obs, backend="memory"):
                      "served": ob["bytes"].decode("latin-1"), "expected": content[armed:].decode("latin-1"), "armed_offset": armed},
                 )
                 return
-        armed = int(arg) if (v == "rest" and codes == ["350"] and arg.isascii() and arg.isdigit()) else 0
+        if v == "rest" and codes == ["350"] and arg.isascii() and arg.isdigit():
+            armed = int(arg)
+        elif v in SUPPORTED:
+            armed = 0
+        # an UNSUPPORTED verb (502) is not a command of the session: it leaves a pending offset pending (the existing
+        # rest-survives-command oracle makes the same exception)
         finals = [c for c in codes if not c.startswith("1")]
         marks = [c for c in codes if c.startswith("1")]
         why = None
@@ -274,7 +283,7 @@ REFUSED_TRANSFERS = [
     ("RETR", "d", None),            # 550 path_must_be_file
     ("STOR", "d/f/x", b"XY"),       # 550 parent is not a directory
     ("APPE", "missing/x", b"XY"),   # 550 parent missing
-    ("FOO", "x", None),             # 502: not a transfer at all, but a command between REST and the transfer
+    ("FOO", "x", None),             # 502: an unsupported verb - the one thing that does NOT consume a pending offset
 ]
 NEXT_TRANSFERS = [("RETR", "g", None), ("RETR", "d/f", None), ("STOR", "g", b"XY"), ("APPE", "g", b"XY"), ("STOR", "new", b"abc")]
 BETWEEN = [[], [("PWD", "", None)], [("TYPE", "I", None), ("SYST", "", None)], [("CWD", "d", None), ("CDUP", "", None)]]
